@@ -60,6 +60,10 @@ struct World {
     statuses: Vec<&'static str>,
     got: BTreeMap<(usize, usize), Vec<Vec<u8>>>,
     want: BTreeMap<(usize, usize), Vec<Vec<u8>>>,
+    // the pump (`w`) by which each datagram was delivered / must have been delivered
+    got_at: BTreeMap<(usize, usize), Vec<usize>>,
+    want_by: BTreeMap<(usize, usize), Vec<usize>>,
+    pumps_done: usize,
     last_ep: BTreeMap<(usize, usize), Endpoint>,
     fails: Vec<String>,
     tags: std::collections::BTreeSet<&'static str>,
@@ -91,6 +95,9 @@ impl World {
             statuses: vec![],
             got: BTreeMap::new(),
             want: BTreeMap::new(),
+            got_at: BTreeMap::new(),
+            want_by: BTreeMap::new(),
+            pumps_done: 0,
             last_ep: BTreeMap::new(),
             fails: vec![],
             tags: Default::default(),
@@ -148,6 +155,7 @@ impl World {
         if sent && dst_alive {
             if self.socks[dst].accepts(src) {
                 self.want.entry((dst, src)).or_default().push(data);
+                self.want_by.entry((dst, src)).or_default().push(self.pumps_done + 1);
             }
             else {
                 self.tags.insert("filtered");
@@ -192,7 +200,7 @@ impl World {
                 let addr = sock.local_addr().unwrap();
                 self.socks.push(Sock::R { sock: Some(sock), addr });
             }
-            "C" => {
+            "C" | "c" => {
                 let j: usize = match rest.parse() {
                     Ok(j) if j < self.socks.len() => j,
                     _ => return false,
@@ -208,8 +216,12 @@ impl World {
                 match res {
                     Ok((ep, addr)) => {
                         self.socks.push(Sock::C { ep, addr, peer: j });
-                        // usable once its Connected event has been processed (C03/C13)
-                        let mut tries = 0;
+                        // usable once its Connected event has been processed (C03/C13); `c`: do not
+                        // poll yet, so that datagrams can arrive before the first event of the resource
+                        let mut tries = if kind == "c" { 100 } else { 0 };
+                        if kind == "c" {
+                            self.tags.insert("before-first-poll");
+                        }
                         while self.ctl.is_ready(ep.resource_id()) != Some(true) && tries < 100 {
                             self.pump_once();
                             tries += 1;
@@ -313,7 +325,7 @@ impl World {
                 };
                 if kind == "k" {
                     // the peer reads what it has, then goes away
-                    self.pump();
+                    self.pump_inner();
                     match &mut self.socks[j] {
                         Sock::R { sock, .. } if sock.is_some() => *sock = None,
                         _ => return false,
@@ -338,6 +350,10 @@ impl World {
         true
     }
     fn pump(&mut self) {
+        self.pump_inner();
+        self.pumps_done += 1;
+    }
+    fn pump_inner(&mut self) {
         let mut quiet = 0;
         let mut rounds = 0;
         while quiet < 2 && rounds < 200 {
@@ -365,6 +381,7 @@ impl World {
                 match (recv, src) {
                     (Some(r), Some(s)) => {
                         self.got.entry((r, s)).or_default().push(data);
+                        self.got_at.entry((r, s)).or_default().push(self.pumps_done + 1);
                         self.last_ep.insert((r, s), ep);
                     }
                     _ => self.fails.push(format!("event with unknown endpoint {:?}", ep)),
@@ -378,7 +395,10 @@ impl World {
                             Ok((n, from)) => {
                                 any = true;
                                 match self.socks.iter().position(|s| s.addr() == from) {
-                                    Some(s) => self.got.entry((i, s)).or_default().push(buf[..n].to_vec()),
+                                    Some(s) => {
+                                        self.got.entry((i, s)).or_default().push(buf[..n].to_vec());
+                                        self.got_at.entry((i, s)).or_default().push(self.pumps_done + 1);
+                                    }
                                     None => self.fails.push(format!("raw peer {} got a datagram from unknown {}", i, from)),
                                 }
                             }
@@ -407,6 +427,12 @@ impl World {
                 self.fails.push(format!("receiver {} from {}: {} (got {} want {})", k.0, k.1, what, show_outs(&g), show_outs(w)));
             }
         }
+        for (k, by) in &self.want_by {
+            let at = self.got_at.get(k).cloned().unwrap_or_default();
+            if let Some(i) = (0..by.len().min(at.len())).find(|&i| at[i] > by[i]) {
+                self.fails.push(format!("receiver {} from {}: datagram #{} was sent before pump {} but delivered only by pump {} (stranded until later traffic)", k.0, k.1, i, by[i], at[i]));
+            }
+        }
         for (k, g) in &self.got {
             if !self.want.contains_key(k) {
                 self.fails.push(format!("receiver {} got {} from {} which never sent to it", k.0, show_outs(g), k.1));
@@ -419,7 +445,15 @@ impl World {
         if per_recv.values().any(|n| *n >= 2) {
             self.tags.insert("multi-sender");
         }
-        let groups: Vec<String> = self.got.iter().map(|(k, v)| format!("{}<{}:{}", k.0, k.1, show_outs(v))).collect();
+        let groups: Vec<String> = self
+            .got
+            .iter()
+            .map(|(k, v)| {
+                let at = self.got_at.get(k).cloned().unwrap_or_default();
+                let items: Vec<String> = v.iter().enumerate().map(|(i, p)| format!("{}@{}", show_payload(p), at.get(i).copied().unwrap_or(0))).collect();
+                format!("{}<{}:[{}]", k.0, k.1, items.join(","))
+            })
+            .collect();
         let imp = format!("st=[{}] {}", self.statuses.join(","), groups.join(" "));
         let oracle = if self.fails.is_empty() { "ok".to_string() } else { format!("FAIL {}", self.fails.join("; ")) };
         (imp, oracle, self.tags.into_iter().collect::<Vec<_>>().join(","))
@@ -643,6 +677,9 @@ const CORPUS: &[&str] = &[
     "udp e2e L L f0>1:10:1 f1>0:11:2 w r0>1:12:3 r1>0:13:4 w",
     // a library socket connected to a raw peer, both directions
     "udp e2e R C0 s1:20:1 s1:1472:2 s1:1473:3 w x0>1:30:4 x0>1:0:5 w",
+    // datagrams that reach a connected socket before its first poll event has been processed
+    "udp e2e R c0 x0>1:10:1 x0>1:0:2 x0>1:65507:3 w s1:4:4 w",
+    "udp e2e L c0 f0>1:7:1 f0>1:8:2 w s1:3:3 f0>1:9:4 w",
     // a connected socket whose raw peer goes away: the first send bounces (Sent), the next one reports the
     // pending error (ResourceNotFound, nothing transmitted) although the peer is back, the third arrives
     "udp e2e R C0 s1:5:1 w k0 s1:6:2 w o0 s1:7:3 s1:8:4 s1:0:5 w x0>1:9:6 w",
